@@ -29,6 +29,8 @@ class TailList:
     def _pull(self, I, node):
         """materialise the top element of T (caller has established n > 0)"""
         self.pulled += 1
+        if self.pulled > 6:
+            raise CheckerError(f'the loop keeps consuming the unknown bottom part of `{self.name}` (more than 6 elements): not analysable with this configuration template')
         if self.peek is not None and self.pulled == 1:
             v = self.peek(I)
         else:
